@@ -30,7 +30,13 @@
    [fx] = the pipe_stop repair is present in the source (Gen/Consts.v,
    PAIRx_STOP_WRITABLE_FIXED): pipe_stop clears the send pollable only when the
    send buffer is full (fix 6a91792).  The tree as first pinned cleared it unconditionally
-   (fx = false; Properties_C08.pair_poll_w_mirror_refuted). *)
+   (fx = false; Properties_C08.pair_poll_w_mirror_refuted).
+
+   [fr] = the set_send_buf_len repair is present (Gen/Consts.v, PAIRx_RESIZE_ADMITS_FIXED,
+   fix 7c956d7): right after nni_lmq_resize the blocked senders move from waq into wmq, in
+   order, while the queue is not full.  The tree as first pinned left waq alone, so a later
+   send overtook a blocked one through the new room (fr = false;
+   Properties_C08.pair_submission_order_refuted). *)
 From Coq Require Import List Arith NArith Bool.
 From NngV Require Import Proto.Common.
 Import ListNotations.
@@ -114,6 +120,16 @@ Definition set_snd (l : list (pid * pmsg)) (p : pid) (m : option pmsg) : list (p
 Definition snd_of (l : list (pid * pmsg)) (p : pid) : list pmsg :=
   map snd (filter (fun x => N.eqb (fst x) p) l).
 
+(* pairX_set_send_buf_len (since 7c956d7): while (!nni_lmq_full(&s->wmq)) { a = first(waq); if none break;
+   remove; lmq_put(wmq, msg); finish(a, 0) }  -> (wmq', waq', aios completed) *)
+Fixpoint admit_waiters (cap : nat) (wmq : list pmsg) (waq : list (aioid * pmsg)) : list pmsg * list (aioid * pmsg) * list aioid :=
+  match waq with
+  | [] => (wmq, [], [])
+  | (a, m) :: r =>
+      if lmq_full wmq cap then (wmq, waq, [])
+      else let '(w, q, d) := admit_waiters cap (wmq ++ [m]) r in (w, q, a :: d)
+  end.
+
 (* pairX_send_sched *)
 Definition pair_send_sched (k : pkind) (s : pair) : pair * list pout :=
   match pr_p s with
@@ -143,7 +159,7 @@ Definition pair_send_sched (k : pkind) (s : pair) : pair * list pout :=
               (pr_readable s) w, outs)
   end.
 
-Definition pair_step (k : pkind) (fx : bool) (s : pair) (o : pop) : pair * list pout :=
+Definition pair_step (k : pkind) (fx fr : bool) (s : pair) (o : pop) : pair * list pout :=
   match o with
   | PPipeStart p peer =>                                   (* pairX_pipe_start *)
       if negb (N.eqb peer (pair_peer k)) then (s, [Reject E_PROTO])
@@ -250,11 +266,12 @@ Definition pair_step (k : pkind) (fx : bool) (s : pair) (o : pop) : pair * list 
       else (s, [])
   | PSetOpt _ (OSendBuf n) =>                              (* pairX_set_send_buf_len *)
       if (PAIR_BUF_MAX <? N.of_nat n)%N then (s, [OptRv E_INVAL]) else
-      let wmq' := firstn n (pr_wmq s) in
+      let '(wmq', waq', done) :=
+        if fr then admit_waiters n (firstn n (pr_wmq s)) (pr_waq s) else (firstn n (pr_wmq s), pr_waq s, []) in
       let w := if negb (lmq_full wmq' n) then true else if negb (pr_wr s) then false else pr_writable s in
-      (mkPair (pr_p s) (pr_ttl s) wmq' n (pr_waq s) (pr_rmq s) (pr_rcap s) (pr_raq s)
+      (mkPair (pr_p s) (pr_ttl s) wmq' n waq' (pr_rmq s) (pr_rcap s) (pr_raq s)
               (pr_rd s) (pr_wr s) (pr_sending s) (pr_readable s) w,
-       map Free (skipn n (pr_wmq s)) ++ [OptRv E_OK])
+       map Free (skipn n (pr_wmq s)) ++ map (fun a => Complete a E_OK None) done ++ [OptRv E_OK])
   | PSetOpt _ (ORecvBuf n) =>                              (* pairX_set_recv_buf_len *)
       if (PAIR_BUF_MAX <? N.of_nat n)%N then (s, [OptRv E_INVAL]) else
       let rmq' := firstn n (pr_rmq s) in
